@@ -96,19 +96,25 @@ func (x *Exec) builtin(fr *Frame, st *State, i *ssa.Call, b *ssa.Builtin, args [
 func (x *Exec) copyBuiltin(st *State, i *ssa.Call, args []Val) Val {
 	dst, src := args[0], args[1]
 	dl, sl := dst.C[2], src.C[2]
-	if sl.Op != "const" || sl.U64() > 16 {
+	var n int
+	switch {
+	case sl.Op == "const" && sl.U64() <= 16:
+		n = int(sl.U64())
+	case src.C[3].Op == "const" && src.C[3].U64() <= 16:
+		// symbolic length, but at most a small constant capacity (a slice of a small array)
+		n = int(src.C[3].U64())
+	default:
 		x.fail("copy with non-constant source length")
 	}
-	n := int(sl.U64())
 	elemT := i.Call.Args[0].Type().Underlying().(*types.Slice).Elem()
 	es := sizeOf(elemT)
 	stride := strideOf(elemT)
 	emo := memOffsOf(elemT)
 	ss := cellsOf(elemT)
 	// number copied = min(dl, n)
-	cnt := Ite(ULT(dl, BV(int64(n), 64)), dl, BV(int64(n), 64))
+	cnt := Ite(ULT(dl, sl), dl, sl)
 	for k := 0; k < n; k++ {
-		cond := ULT(BV(int64(k), 64), dl)
+		cond := And(ULT(BV(int64(k), 64), dl), ULT(BV(int64(k), 64), sl))
 		for c := 0; c < es; c++ {
 			so := BVAdd(src.C[1], BV(int64(k*stride+emo[c]), 64))
 			do := BVAdd(dst.C[1], BV(int64(k*stride+emo[c]), 64))
@@ -489,6 +495,22 @@ func (x *Exec) callContract(st *State, fi *FuncInfo, args []Val, pos token.Pos, 
 		}
 	}
 	x.callSeq++
+	// places the callee restores: their cells are read before the havoc and written back after it
+	type keptCell struct {
+		blk, off, v *Term
+	}
+	var kept []keptCell
+	for _, g := range fi.Keep {
+		v := x.evalGen(g, st, x.genArgs(g, args, nil, nil, nil, st))
+		r := x.regionOf(v)
+		if r == nil || r.Const == 0 {
+			x.fail("keeps clause of %s does not denote a place", key)
+		}
+		for k := range r.Sorts {
+			b, o := BVAdd(r.Blk, BV(int64(r.Tags[k]), 32)), BVAdd(r.Off, BV(int64(r.Offs[k]), 64))
+			kept = append(kept, keptCell{b, o, Select(Select(x.heapOf(st, r.Sorts[k]), b), o)})
+		}
+	}
 	// results and modified cells are deterministic (uninterpreted) functions of the callee's read footprint
 	fp := x.footprint(st, fi, args)
 	argStart := x.lastArgStart
@@ -542,6 +564,9 @@ func (x *Exec) callContract(st *State, fi *FuncInfo, args []Val, pos token.Pos, 
 	}
 	outs = append(outs, res.C...)
 	x.calls = append(x.calls, &callRec{Key: key, FI: fi, Args: args, FP: fp, ArgStart: argStart, Res: res, Outs: outs, Guard: st.G})
+	for _, kc := range kept {
+		x.storeHeapCell(st, kc.blk, kc.off, kc.v)
+	}
 	for k, g := range fi.Ens {
 		c := fi.C.Ensures[k]
 		if !x.tagOn(c.Tags) {
@@ -658,6 +683,7 @@ func (x *Exec) genOwner(g *GenFunc) *FuncInfo {
 		reg(fi.Req)
 		reg(fi.Ens)
 		reg(fi.Mod)
+		reg(fi.Keep)
 		for _, gs := range fi.LoopInv {
 			reg(gs)
 		}
